@@ -108,7 +108,7 @@ def gen_script(rng, max_msg):
     return conns, steps
 
 
-CANON = re.compile(r"[^\"]*_[0-9a-f]+_0x[0-9a-f]+")
+CANON = re.compile(r"(?:[^\"]*_)?[0-9a-f]+_0x[0-9a-f]+")   # "<origin id>_<counter>_<peer address>", no origin part for numeric ids
 
 
 def execute(binary, conns, steps, policy, rng, timeout=60):
